@@ -121,7 +121,7 @@ Proof.
         unfold vrel. cbn [py_obs_variant vd_wire]. rewrite Hkey, (py_no_collision_lookup _ v Ec Hvin).
         split; [reflexivity|]. revert Hpay. unfold c03_inline_keys, c03_payload_ok, py_obs_variant. cbn [vd_payload c03_inlines].
         destruct v; destruct (pyv_content pv); intros Hpay; try contradiction; split; reflexivity.
-  - apply mbind_ok in H as (ty & s1 & _ & H). unfold ret in H. injection H as <- _. split; reflexivity.
+  - apply mbind_ok in H as (ty & s1 & _ & H). apply mbind_ok in H as (utv & stv & _ & H). unfold ret in H. injection H as <- _. split; reflexivity.
   - apply mbind_ok in H as (ty & s1 & _ & H). unfold ret in H. injection H as <- _. split; reflexivity.
 Qed.
 
